@@ -211,6 +211,7 @@ def end_to_end(ctx):
 
 def run(ctx):
     C.ensure_impl_path()
+    stft.regenerate(ctx)
     pr = C.proof_step(ctx)
     rng = ctx.rng
     # (i) walk probes
